@@ -13,34 +13,34 @@ BASELINE = ("cd /repo && /venv/bin/python -m pytest -ra -q -p no:cacheprovider -
 
 # id -> (category, technique, level text, level note, design ref, n/a reason while the check is not built)
 TABLE: dict[str, dict[str, str]] = {
-    "C01": dict(cat="other", tech="form-table extraction (opcode/parameter roles per syntax form) + abstract interpretation of the op-list builders against specified flow graphs + def-use rules on the post-passes",
-                text="Decides for all programs: opcode and parameter order of every condition/header/case/assignment form, the label/jump skeleton every block construct emits for every body-shape class, and the op-removal discipline of the post-passes. Does not decide whole-program behaviour (user label graphs, interplay of passes).",
+    "C01": dict(cat="other", tech="form-table extraction (opcode/parameter roles per syntax form) + abstract interpretation of the op-list builders against specified flow graphs + def-use rules on the post-passes; whole compiler (visitors, handlers, post-passes) interpreted from its syntax trees on grammar parse trees: 169 syntactic forms and routine headers vs. the language form table, exhaustive bounded family of schematic programs vs. specified flow graphs by bisimulation",
+                text="Decides for all programs: opcode and parameter order of every condition/header/case/assignment form, the label/jump skeleton every block construct emits for every body-shape class, and the op-removal discipline of the post-passes. Does not decide whole-program behaviour (user label graphs, interplay of passes). Interpreter-based rules decide the enumerated shapes for every outcome of every test, not all programs (DESIGN.md 9.2).",
                 note="Oracle tables under esv/spec written from docs/language_spec.rst and the SSB machine model; CPython ast; the grammar reader esv/engine/g4.py.", ref="§4 C01"),
-    "C02": dict(cat="other", tech="grammar-parsed print templates pushed through the compiler's form model (writer/reader agreement) + dispatch exhaustiveness + edge-attribute conventions + entry preservation",
-                text="Decides necessary conditions only: every special opcode is printed in a spelling that compiles back to the same op with equal parameters, dispatch tables are exhaustive, producer/consumer conventions of edge attributes agree, the routine entry vertex is never deleted. The structuring heuristics themselves are not decided.",
+    "C02": dict(cat="other", tech="grammar-parsed print templates pushed through the compiler's form model (writer/reader agreement) + dispatch exhaustiveness + edge-attribute conventions + entry preservation; round trip compile -> decompile -> compile with every stage interpreted (parser runtime, graph library and file system modelled) over general, nested and flat program families, flow graphs compared by bisimulation",
+                text="Decides necessary conditions only: every special opcode is printed in a spelling that compiles back to the same op with equal parameters, dispatch tables are exhaustive, producer/consumer conventions of edge attributes agree, the routine entry vertex is never deleted. The structuring heuristics themselves are not decided. R7 decides behaviour preservation for the enumerated program shapes (all test outcomes); three inputs are recorded as known findings.",
                 note="Same trusted base as C01; the 1 600 lines of graph rewriting are outside any sound static argument in reach.", ref="§4 C02"),
     "C03": dict(cat="other", tech="type-flow and who-may-write rules on the op list (no pseudo-op survives, target appended last, offset sources, table lengths)",
                 text="Decides the structural half of every clause of C03 for all programs: only real ops reach routine_ops, the jump target is appended last and agrees with the decompiler's index table, every offset comes from the monotone counter or replaces an op one-for-one, label offsets denote surviving ops, the three routine tables grow together. Not decided: raw user-written jump opcodes.",
                 note="CPython ast; folded tables of ssb_special_ops.", ref="§4 C03"),
-    "C04": dict(cat="other", tech="escape/unescape table agreement, quoted-hole escaping, numeral-shape vs. token-language inclusion, parameter-type exhaustiveness",
-                text="Decides the table-level half of print/parse identity: escape pairs of printer and reader, escaping of every quoted interpolation, that printed numerals are tokens of the grammar, that every parameter type has a printer and a parse path, integer base handling. Value-dependent parts (multi-line dedent arithmetic) are not decided.",
+    "C04": dict(cat="other", tech="escape/unescape table agreement, quoted-hole escaping, numeral-shape vs. token-language inclusion, parameter-type exhaustiveness; print -> parse identity with printers and readers interpreted on a table of values built from the character classes the printers distinguish, in three printing contexts and several depths",
+                text="Decides the table-level half of print/parse identity: escape pairs of printer and reader, escaping of every quoted interpolation, that printed numerals are tokens of the grammar, that every parameter type has a printer and a parse path, integer base handling. Value-dependent parts (multi-line dedent arithmetic) are not decided. R7 evaluates the value table; other values are covered by the table-level rules.",
                 note="re._parser for regexes built from the .g4 token rules.", ref="§4 C04"),
     "C05": dict(cat="other", tech="def-use/typestate rules on ExplorerScriptMacro.build (fresh labels, return->jump-to-end, parameter substitution), call binding, import resolution order, dependency-order rule",
                 text="Decides the expansion template of build(), the binding of arguments to macro variables, the import search order and the recursion guard, and that the macro order is produced by a topological sort of the dependency graph. Behaviour of expanded ops inherits C01's limits.",
                 note="igraph.Graph.topological_sorting is trusted to return a topological order.", ref="§4 C05"),
-    "C06": dict(cat="other", tech="raise-set inference over the resolved call graph vs. the fallback handler; marker writer/reader agreement; backup-before-mutation dominance",
+    "C06": dict(cat="other", tech="raise-set inference over the resolved call graph vs. the fallback handler; marker writer/reader agreement; backup-before-mutation dominance; round trip with every stage interpreted: convert() returns for every program of the families, fallback text reproduces the ops one for one; resolver totality (end-of-table guard), handler-bound names, fresh collectors of the fallback reader",
                 text="Decides that no exception class raised under convert()'s try escapes its handler, that the fallback prefix is recognised by parse_exps_meta_attributes with an accepted value, and that the raw ops are backed up before any pass touches them. Exactness of the fallback text is C07.",
                 note="Library callee summaries (open/int/next/list.index ...) are hand-written.", ref="§4 C06"),
     "C07": dict(cat="other", tech="grammar-parsed SsbScript print templates vs. the listener's reading (writer/reader agreement), jump-argument position, label binding, order preservation",
                 text="Decides that every SsbScript print template parses under SsbScript.g4 and is read back by the listener into the same opcode/parameters/routine kind, that the jump marker is printed and consumed as the last argument, that labels bind to the next op, and that neither side reorders. String values are C04.",
                 note="Grammar reader; listener methods read as ast.", ref="§4 C07"),
-    "C08": dict(cat="other", tech="must-follow registration rule per op construction site, position-expression shape rule, return-address counting rule",
+    "C08": dict(cat="other", tech="must-follow registration rule per op construction site, position-expression shape rule, return-address counting rule; whole compiler interpreted on laid-out sample programs: every emitted op has an entry at the line/column where its statement, condition, switch or case header begins",
                 text="Decides that every op construction is followed by exactly one source-map registration with the same number, that all positions are <ctx>.start.line - 1 / start.column of the handler's own context, that the macro return address counts exactly the non-label blueprint ops plus one, and that file names are relative to the base file.",
                 note="CPython ast.", ref="§4 C08"),
-    "C09": dict(cat="other", tech="who-may-write rule on the line counter, register-before-write dominance, coverage of statement writers, offset-aliasing rule",
+    "C09": dict(cat="other", tech="who-may-write rule on the line counter, register-before-write dominance, coverage of statement writers, offset-aliasing rule; round trip with every stage interpreted: each entry of the decompiler's map points at the first character of its op's statement and recompilation agrees on the line",
                 text="Decides that the line counter is advanced by exactly the newlines written, that source_map_add_opcode dominates the statement's write with nothing written in between, that every statement writer registers, and that synthetic vertices do not overwrite real entries.",
                 note="CPython ast.", ref="§4 C09"),
-    "C10": dict(cat="other", tech="raise-set inference over the resolved call graph vs. the documented exception classes; presence table of documented rejections; stack pairing; parse-listener guard",
+    "C10": dict(cat="other", tech="raise-set inference over the resolved call graph vs. the documented exception classes; presence table of documented rejections; stack pairing; parse-listener guard; whole compiler interpreted on the meaningless and degenerate program shapes of the specification (rejected with a documented error, nothing else escapes); counter-indexed loop conditions are bounded",
                 text="Decides that no explicitly raised exception class other than ParseError/SsbCompilerError/ValueError can leave compile(), that every documented rejection has its raise site, that loop/case stacks are paired, and two named implicit-exception patterns. Implicit exceptions in general are not decided.",
                 note="Narrowing asserts (is not None / isinstance) are assumed not to fire.", ref="§4 C10"),
     "C11": dict(cat="other", tech="shared-state inventory (who-may-write), reset-before-use on compile(), input non-mutation, memo-clear typestate",
@@ -49,8 +49,8 @@ TABLE: dict[str, dict[str, str]] = {
     "C12": dict(cat="other", tech="confinement: shared-state inventory + memo keyed by a call-local graph object",
                 text="Decides confinement: two concurrent calls share no mutable state beyond the audited memo table, whose entries are keyed by the id of a graph local to one call. Interleavings inside the ANTLR runtime are not decided.",
                 note="CPython's GIL makes single dict operations atomic; ANTLR runtime caches and igraph are outside the analysis.", ref="§4 C12"),
-    "C13": dict(cat="other", tech="data-dependence rule on the join search (traversal liveness) + marker producer/consumer agreement",
-                text="Decides necessary conditions only: the common-next-vertex search advances along the graph's adjacency, and every end marker a pass attaches has a writer-side consumer that stops on the same id. Completeness of the structuring heuristics is not decided.",
+    "C13": dict(cat="other", tech="data-dependence rule on the join search (traversal liveness) + marker producer/consumer agreement; flat programs (singles, ordered pairs; triples in the thorough tier) taken through compile -> decompile with every stage interpreted: ExplorerScript without jump, each operation once; typestate of jump roots across passes; stale edge ids; memo discipline",
+                text="Decides necessary conditions only: the common-next-vertex search advances along the graph's adjacency, and every end marker a pass attaches has a writer-side consumer that stops on the same id. Completeness of the structuring heuristics is not decided. R6 decides the property for the enumerated flat shapes (832 quick / 8 608 thorough), not for all flat programs.",
                 note="CPython ast.", ref="§4 C13"),
     "C14": dict(cat="other", tech="sibling/writer-reader field agreement on serialize/deserialize/__init__, equality coverage, shape rule on rewrite_offsets",
                 text="Decides for all maps: field order and JSON keys agree between writer and reader, int keys and tuples are restored, SourceMap.__eq__ compares value-comparable entries, rewrite_offsets rebuilds both tables through the mapping and moves return addresses forward to the next surviving op.",
@@ -58,13 +58,13 @@ TABLE: dict[str, dict[str, str]] = {
     "C15": dict(cat="other", tech="tag-table agreement compile CLI / decompile CLI / docs, offset-renumbering rule, coroutine-id rule, docs example types vs. reader operations, exit paths",
                 text="Decides that the type tags and keys written by the compile CLI equal those read by the decompile CLI and those documented, that jump parameters are translated to list positions, that coroutine names are registered under their routine index, that documented JSON leaf types are accepted, and that no error path exits with status 0.",
                 note="reST reader for docs/cli_api_usage.rst.", ref="§4 C15"),
-    "C16": dict(cat="other", tech="grammar facts (skip channel, lexer order, alternative spellings) + position taint in the compiler + spelling tables",
+    "C16": dict(cat="other", tech="grammar facts (skip channel, lexer order, alternative spellings) + position taint in the compiler + spelling tables; re-spellings of a base program compiled with the whole compiler interpreted: identical ops, routine table, marks",
                 text="Decides that whitespace/comments/line joining are skipped, keywords precede IDENTIFIER, both label and target spellings exist and map to the same values, and that token positions and skipped tokens flow only into source-map calls and messages. ANTLR's prediction on arbitrary token juxtapositions is not decided.",
                 note="Generated lexer/parser are assumed to implement the .g4 files (name tables are compared).", ref="§4 C16"),
     "C17": dict(cat="proof", tech="regex nullability and first-set totality over the Pygments token table",
                 text="Proof over the token table: every rule regex is non-nullable (termination), every action is a plain token type (losslessness), and in every enterable state the rules that are certain to match from their first character cover the alphabet reachable there in accepted sources (no Error token).",
                 note="Trusted: pygments RegexLexer.get_tokens_unprocessed main loop, re._parser, equivalence of words() with an alternation.", ref="§4 C17"),
-    "C18": dict(cat="other", tech="visitor traversal rule against grammar reachability, span-expression shape rule, shared argument parser (sibling agreement)",
+    "C18": dict(cat="other", tech="visitor traversal rule against grammar reachability, span-expression shape rule, shared argument parser (sibling agreement); the listing visitor interpreted on sample sources against the grammar's own parse tree; printed marks compiled back",
                 text="Decides that the position-mark visitor cuts no subtree that can contain a Position literal, aggregates in visit order, builds spans from start.line-1/start.column/stop.line-1/stop.column of the literal's own context, and shares handler classes and the argument parser with the compiler.",
                 note="Grammar reader; CPython ast.", ref="§4 C18"),
 }
@@ -112,8 +112,9 @@ def main() -> None:
             "path": "/verif/esv",
             "serves_properties": [c["property_id"] for c in checks],
             "kind_free_text": "repository-specific static analysis: ast-based loader/symbol table, constant folder, call graph and raise-set "
-                              "inference, ANTLR .g4 reader with tokenizer/parser for print templates, regex model, form model of the "
-                              "compile handlers, abstract interpretation of op-list builders",
+                              "inference, ANTLR .g4 reader with tokenizer/parser, regex model, and an interpreter of the repository's syntax trees over "
+                              "abstract objects (with models of the parser runtime, the graph library and the file system) that evaluates the "
+                              "compiler and both decompilers on schematic programs and value tables without importing or running repository code",
         }],
         "checks": checks,
         "notes": "All checks are static: they parse /repo's current working tree on every run. Exit 0 = all rule instances hold (known findings "
